@@ -37,7 +37,7 @@ for pid in ["C%02d" % i for i in range(1, 19)]:
             "summary": meta_a.get("summary"),
             "needs": meta_a.get("needs"),
             "files": meta_a.get("files"),
-            "source": "fresh sub-agent given only the property text and its own scratch worktree of /repo" + (" (second round: also told the one-line summaries of the two earlier changes for this property, to avoid repeats)" if offset else ""),
+            "source": "fresh sub-agent given only the property text and its own scratch worktree of /repo" + (" (later round: also told the one-line summaries of the earlier changes for this property, to avoid repeats)" if offset else ""),
             "confirmed": {
                 "ran": [
                     "scratch worktree of /repo HEAD: git apply patch.diff; cargo test --workspace --no-fail-fast --offline  -> %d passed, %d failed" % (ph1['baseline_passed'], ph1['baseline_failed']),
